@@ -554,6 +554,9 @@ ROUND5 = {
 
 # sixth round
 ROUND6 = {
+    'C13': ' A holder that released may linger: its connectionLost arrives at '
+           'a generated later step (op lazy), also while another client '
+           'holds.',
     'C03': ' After a failure reply the job of every in-flight unit that purge '
            'touched must still be queued.',
     'C20': ' Part grow: updates add modules to existing or new task packages '
